@@ -9,7 +9,8 @@ from concurrent.futures import ThreadPoolExecutor
 
 from . import core
 
-ALPHABETS = ['A1', 'A2', 'A3', 'A4', 'A5', 'A6', 'A7', 'A8', 'A9', 'B1', 'B2', 'B3', 'B4', 'H1', 'H2', 'H3']
+ALPHABETS = ['A1', 'A2', 'A3', 'A4', 'A5', 'A6', 'A7', 'A8', 'A9', 'B1', 'B2', 'B3', 'B4', 'H1', 'H2', 'H3', 'R1', 'R2', 'R3']
+SMALL = ['R4']          # small alphabets read one line deeper (a multi-line title needs four lines to swallow a block)
 
 # classes of input on which the implementation is recorded to deviate (known_findings.json); decided by the specification (tags)
 FINDING_TAGS = {'lazy-after-nonpara', 'lazy-after-indented-quote-content', 'lazy-line-looks-like-setext-underline', 'setext-in-quote',
@@ -17,7 +18,7 @@ FINDING_TAGS = {'lazy-after-nonpara', 'lazy-after-indented-quote-content', 'lazy
 
 
 # classes the specification text does not settle (both readings admitted, DESIGN.md 1.4.1): such documents are not judged
-UNSETTLED_TAGS = {'unsettled-lazy-or-list'}
+UNSETTLED_TAGS = {'unsettled-lazy-or-list', 'unsettled-definition-in-list-item', 'unsettled-block-start-after-definition'}
 
 
 def settled(docs):
@@ -30,7 +31,7 @@ def alphabet_size(cfg):
     return len(re.findall(r'"(?:[^"\\]|\\.)*"', body))
 
 
-def documents(ck, depth):
+def documents(ck, depth, laws=True):
     """All documents of <= depth lines over every alphabet."""
     jobs = []
     for a in ALPHABETS:
@@ -41,9 +42,12 @@ def documents(ck, depth):
             for k in range(1, alphabet_size(cfg) + 1):
                 jobs.append((cfg, str(k)))
 
+    for a in SMALL:
+        jobs.append(('BlockParse%s_%d.cfg' % (a, depth + 1), '-'))
+
     def one(job):
         cfg, shard = job
-        return core.tlc('BlockParse', cfg, workers=1, env={'SHARD': shard}, timeout=3000, heap='2g')
+        return core.tlc('BlockParse', cfg, workers=1, env={'SHARD': shard, 'LAWS': 'on' if laws else 'off'}, timeout=3000, heap='2g')
     with ThreadPoolExecutor(max_workers=core.NCPU) as ex:
         results = list(ex.map(one, jobs))
     docs, seen = [], set()
@@ -58,18 +62,18 @@ def documents(ck, depth):
         raise core.MachineryError('BlockParse.tla exported only %d documents' % len(docs))
     ck.extra['blockparse_documents'] = len(docs)
     ck.extra['blockparse_alphabets'] = len(ALPHABETS)
-    docs = docs + [d for d in simulate(ck, 600 if depth <= 3 else 20000) if d['src'] not in seen]
+    docs = docs + [d for d in simulate(ck, 600 if depth <= 3 else 20000, laws=laws) if d['src'] not in seen]
     ck.extra['blockparse_unsettled_documents_not_judged'] = len(docs) - len(settled(docs))
     return settled(docs)
 
 
-def simulate(ck, num, depth=9):
+def simulate(ck, num, depth=9, laws=True):
     """Random documents of up to `depth` lines over the union of the alphabets (every prefix of a behaviour is a document)."""
     procs = min(core.NCPU, max(1, num // 100))
     per = max(1, num // procs)
 
     def one(i):
-        return core.tlc('BlockParse', 'BlockParseSim.cfg', workers=1, env={'SHARD': '-'}, timeout=3000, heap='2g',
+        return core.tlc('BlockParse', 'BlockParseSim.cfg', workers=1, env={'SHARD': '-', 'LAWS': 'on' if laws else 'off'}, timeout=3000, heap='2g',
                         extra=['-simulate', 'num=%d' % per, '-depth', str(depth), '-seed', str(ck.seed * 1000 + i + 1)])
     with ThreadPoolExecutor(max_workers=core.NCPU) as ex:
         results = list(ex.map(one, range(procs)))
